@@ -1,0 +1,37 @@
+//go:build verif
+
+// Licensed to LinDB under one or more contributor
+// license agreements. See the NOTICE file distributed with
+// this work for additional information regarding copyright
+// ownership. LinDB licenses this file to you under
+// the Apache License, Version 2.0 (the "License"); you may
+// not use this file except in compliance with the License.
+// You may obtain a copy of the License at
+//
+//     http://www.apache.org/licenses/LICENSE-2.0
+//
+// Unless required by applicable law or agreed to in writing,
+// software distributed under the License is distributed on an
+// "AS IS" BASIS, WITHOUT WARRANTIES OR CONDITIONS OF ANY
+// KIND, either express or implied.  See the License for the
+// specific language governing permissions and limitations
+// under the License.
+
+package kv
+
+import "github.com/lindb/lindb/kv/version"
+
+// This file only exists with the "verif" build tag; it changes no behaviour.
+
+// VerifWrapFamilyVersion replaces the version.FamilyVersion a kv family reads its metadata through
+// (live rollup files, live reference files, snapshots, active files) by wrap(current) and returns a
+// function that puts the original back. The wrapper must forward every call to the value it was given
+// (embed it); it lets the verification harness observe - and delay - the family's metadata reads, i.e.
+// act as the scheduler at those points. Call it (and the restore function) only while the family has
+// no background job and no concurrent user.
+func VerifWrapFamilyVersion(f Family, wrap func(fv version.FamilyVersion) version.FamilyVersion) (restore func()) {
+	ff := f.(*family)
+	orig := ff.familyVersion
+	ff.familyVersion = wrap(orig)
+	return func() { ff.familyVersion = orig }
+}
